@@ -501,10 +501,47 @@ def check_C09(ctx):
                     break
                 pos = max(pos, en)
     usable = lexer_check(ctx, dict(max_rules=4, max_depth=3, p_any=0.15), nd, ni, ["counts"], extra=extra)
+    long_inputs(ctx, 20000 if ctx.tier == "quick" else 200000)
     # release build too (overflow checks off / optimised code)
     if ctx.tier == "thorough":
         lexer_check(ctx, dict(max_rules=4, max_depth=3, p_any=0.15), nd // 4, ni, ["full"], profile="release",
                     extra=extra)
+
+
+def long_inputs(ctx, n):
+    """C09 on long inputs (implementation only; the reference is quadratic): a single repeated character,
+    only unlexable characters, a long lexable text; no panic / hang, at most n+1 items, monotone progress."""
+    rng = random.Random(ctx.seed + 9)
+    d = [('rule', {'re': ('plus', ('set', [(0x61, 0x63)])), 'ctx': None, 'kind': 'simple:1'}),
+         ('rule', {'re': ('cat', ('char', 0x61), ('cat', ('star', ('char', 0x62)), ('char', 0x64))), 'ctx': None, 'kind': 'simple:2'}),
+         ('rule', {'re': ('char', 0x20), 'ctx': None, 'kind': 'skip'})]
+    inputs = [[0x61] * n, [0x3f] * n, [rng.choice([0x61, 0x62, 0x63, 0x20, 0x64]) for _ in range(n)],
+              ([0x61] + [0x62] * 50 + [0x20]) * (n // 52)]
+    c = Case(0, d, [(0, w, None) for w in inputs])
+    run_impl([c], os.path.join(BUILD, "work_C09long"), run_timeout_ms=120000)
+    shutil.rmtree(os.path.join(BUILD, "work_C09long"), ignore_errors=True)
+    if c.compile_error is not None:
+        ctx.violation("compile-error", dict(describe(c), rustc=c.compile_error[-1000:]))
+        return
+    for i, w in enumerate(inputs):
+        I = lines_of(c.impl_runs.get(i, []), "I")
+        items = [l for l in I if l.split()[0] in ("T", "EI", "EC")]
+        ctx.coverage["evaluations"] += 1
+        if lexcheck.p_counts(I) or len(items) > len(w) + 1:
+            ctx.violation("long-input", {"definition": lexdef.rust_lexer(c.name, c.d), "input_length": len(w),
+                                         "input_head": w[:60], "items": len(items), "bad": lexcheck.p_counts(I)[:3]})
+            continue
+        pos = 0
+        for l in items:
+            p = l.split()
+            st = int(p[2]) if p[0] in ("T", "EC") else int(p[1])
+            en = int(p[5]) if p[0] == "T" else st
+            if st < pos:
+                ctx.violation("long-input", {"definition": lexdef.rust_lexer(c.name, c.d), "input_length": len(w),
+                                             "problem": "item at byte %d before %d" % (st, pos)})
+                break
+            pos = max(pos, en)
+    ctx.coverage.setdefault("distribution", {})["long_input_chars"] = n
 
 
 def check_C10(ctx):
